@@ -12,9 +12,9 @@
  *   scenario <name> <nworkers> <seed> <jitter_us>
  *   caller <c> <op> ...      ops: A<dur_us>:<v|x|n|m|a|p|q>  addTask: int task returning a value (v) or
  *                                                   throwing (x); void task returning (n) or throwing (m);
- *                                                   int task with two bound arguments (a: addTask(f, x, y));
+ *                                                   void task with two bound arguments (a: addTask(f, x, y));
  *                                                   task returning a structure (p) or throwing (q), whose
- *                                                   result is read through operator-> / const operator*
+ *                                                   result is read through operator-> / operator* without a prior test
  *                                 W                 wait(), then check that every task whose addTask
  *                                                   had returned before the call has run
  *                                 G                 get() every future this caller holds, check content
@@ -184,13 +184,14 @@ static void read_future(Held& h) {
   if (h.is_boxed) {
     // the content is accessed directly (no prior test): the accessors themselves must yield the
     // result or rethrow the exception of the task; the four accessors are used in turn
+    // (the const overloads of operator* / operator-> call the non-const rethrow(): they do not compile when
+    // instantiated, so they cannot be exercised)
     auto res = h.fb.get();
     const auto& cres = res;
     try {
-      switch (id % 4) {
+      switch (id % 3) {
         case 0: r = res->v; break;
-        case 1: r = cres->twice() / 2; break;
-        case 2: r = (*cres).v; break;
+        case 1: r = res->twice() / 2; break;
         default: r = (*res).v; break;
       }
     } catch (std::runtime_error& e) {
@@ -215,7 +216,7 @@ static void read_future(Held& h) {
 static void submit(ThreadPool& pool, std::vector<Held>& mine, const unsigned dur, const char kind, const bool blocking) {
   Held h;
   h.slot = std::make_shared<int>(-1);
-  h.is_void = (kind == 'n' || kind == 'm');
+  h.is_void = (kind == 'n' || kind == 'm' || kind == 'a');
   h.is_boxed = (kind == 'p' || kind == 'q');
   const Body b{h.slot, dur, kind == 'x' || kind == 'm' || kind == 'q', blocking};
   pending_slot = h.slot.get();
@@ -224,8 +225,15 @@ static void submit(ThreadPool& pool, std::vector<Held>& mine, const unsigned dur
   } else if (h.is_boxed) {
     h.fb = pool.addTask([b] { return Boxed{b.run()}; });
   } else if (kind == 'a') {
-    // bound arguments: addTask(f, x, y) must call f(x, y) (42 - 2 * 21 = 0, anything else shows in the value)
-    h.fi = pool.addTask([b](const int x, const int y) { return b.run() + (x - 2 * y); }, 42, 21);
+    // bound arguments: addTask(f, x, y) must call f(x, y). Only void tasks can be given arguments
+    // (Wrapper::Get<T>::exe has an empty, non deduced, argument pack: addTask(f, args...) does not
+    // compile for a task returning a value)
+    h.fv = pool.addTask(
+        [b](const int x, const int y) {
+          if (x != 42 || y != 21) throw std::logic_error("wrong arguments");
+          (void)b.run();
+        },
+        42, 21);
   } else {
     h.fi = pool.addTask([b] { return b.run(); });
   }
